@@ -23,10 +23,12 @@ import traceback
 
 import common
 import srvkit
+from props import c06
 
 common.repo_on_path()
 
 SETTLE = 20.0
+WATCHDOG = 15
 
 
 class PeerSock(srvkit.FakeSock):
@@ -35,6 +37,8 @@ class PeerSock(srvkit.FakeSock):
       * once the peer is `gone`, send() fails with EPIPE;
       * once the peer has RESET the connection, getpeername() fails with ENOTCONN (a TCP socket in state CLOSE),
         also while bytes that arrived before the reset can still be read;
+      * a peer that stays connected but sends nothing more ("silent" ending): every recv() that would have to wait
+        for it is recorded in `waited` (the daemon must not need more bytes to refuse an invalid prefix);
       * a silent peer ("timeout" ending) makes recv() raise socket.timeout only if a timeout was SET on this socket;
         without one a real recv() would block for ever: recorded in `blocked` (who was blocked, by thread name) -
         and then the run goes on as if the peer had gone away, since the harness cannot wait for ever."""
@@ -55,6 +59,15 @@ class PeerSock(srvkit.FakeSock):
         return super().getpeername()
 
     def recv(self, n, flags=0):
+        with self.cond:
+            silent = self.ending == "silent" and not self.inbound and not self.closed
+        if silent:
+            # the peer stays connected and sends nothing more: a real recv() waits here (until the timeout, if one is set)
+            if self.rig is not None:
+                self.rig.waited.append((self.index, threading.current_thread().name))
+            if self.timeout is not None:
+                raise socket.timeout("timed out")
+            return b""                      # the harness cannot wait for ever: go on as if the peer had left
         try:
             return super().recv(n, flags)
         except socket.timeout:
@@ -119,7 +132,7 @@ class LoopSelector:
             s = getattr(f, "sock", None)
             if s is None:
                 continue
-            if s.inbound or (s.ending and not getattr(s, "_ending_seen", False)):
+            if s.inbound or (s.ending and s.ending != "silent" and not getattr(s, "_ending_seen", False)):
                 out.append(f)
         return out
 
@@ -141,10 +154,27 @@ class LoopRig(srvkit.Rig):
         config.MAX_MESSAGE_SIZE = 1 << 20
         self.loop_alive = True
         self.unsettled = False
+        self.spun = False                         # a serving thread never became idle again
         self.blocked = []                         # (connection, thread) whose recv() had no timeout while the peer stalled
+        self.waited = []                          # (connection, thread): a recv() had to wait for a connected but silent peer
         self.main_thread = threading.current_thread().name
         self.loop_exc = None                      # (class name, innermost transport function, text)
         self.iterations = 0
+        from Pyro5 import server
+        rig = self
+
+        @server.expose
+        class Poison(object):
+            """methods raising exceptions whose serialisation fails in ways other than TypeError / ValueError / SerializeError"""
+            def boom(self, kind, token):
+                conn = rig.ctx.client
+                with rig.lock:
+                    rig.execs.append((conn.sock.index if conn is not None else -1, token))
+                e = ValueError("boom %d" % token)
+                e.extra = poison_value(kind)
+                raise e
+        self.Poison = Poison
+        self.daemon.register(Poison(), "poison")
         srv = self.daemon.transportServer
         if servertype == "thread":
             self.listener = srvkit.FakeListener()
@@ -201,9 +231,16 @@ class LoopRig(srvkit.Rig):
         self.iterations = 0
         try:
             try:
-                srv.loop(pending)
+                # everything a loop slice does is computation over bytes already delivered (the in-memory sockets never
+                # wait silently): if it has not come back after WATCHDOG seconds, a handler spins
+                with c06.Watchdog(WATCHDOG):
+                    srv.loop(pending)
             except srvkit.Stuck:
                 raise
+            except c06.Hang:
+                self.loop_alive = False
+                self.loop_exc = ("Hang", "loop", "a handler never came back")
+                raise srvkit.Stuck("the request loop did not come back within %d s: a handler spins" % WATCHDOG)
             except BaseException as x:
                 self.loop_alive = False
                 where = "loop"
@@ -244,7 +281,11 @@ class LoopRig(srvkit.Rig):
             if first:
                 self._run_loop()
             if idx in self.jobs:
-                self._wait_thread(idx)
+                try:
+                    self._wait_thread(idx)
+                except srvkit.Stuck:
+                    self.spun = True
+                    raise
             self.settle_pool()
         elif self.loop_alive:
             self._run_loop()
@@ -295,6 +336,9 @@ class LoopRig(srvkit.Rig):
             def sleep(self, s):
                 pass
         svr_threads.time = NoSleep()
+        if self.spun:
+            kill_spinners()
+            time.sleep(0.05)
         registered = [self.Target] + [v for v in self.daemon.objectsById.values() if isinstance(v, type)] \
             + [type(v) for v in self.daemon.objectsById.values()]
         try:
@@ -304,6 +348,43 @@ class LoopRig(srvkit.Rig):
             forget_types(registered)
             if self.servertype == "thread":
                 self.real_acceptsel.close()      # SocketServer_Threadpool.close() never closes its accept selector (an epoll fd)
+
+
+class _Slots:
+    __slots__ = ("a",)                      # the slot is never set: reading it raises AttributeError
+
+
+class _NoState:
+    def __getstate__(self):
+        raise RuntimeError("no state")
+
+
+def poison_value(kind):
+    if kind == "slots":
+        return _Slots()
+    if kind == "getstate":
+        return _NoState()
+    x = []                                   # "deep": RecursionError under json, ValueError elsewhere
+    for _ in range(5000):
+        x = [x]
+    return x
+
+
+def kill_spinners(prefixes=("Pyro-Worker",)):
+    """a handler that spins (never blocks) would burn a CPU for the rest of the run: make it raise SystemExit"""
+    import ctypes
+    import sys
+    frames = sys._current_frames()
+    n = 0
+    for t in threading.enumerate():
+        if t is threading.current_thread() or not t.name.startswith(prefixes) or not t.is_alive():
+            continue
+        fr = frames.get(t.ident)
+        if fr is None or fr.f_code.co_filename.endswith("threading.py") or fr.f_code.co_filename.endswith("srvkit.py"):
+            continue                         # waiting, not spinning
+        ctypes.pythonapi.PyThreadState_SetAsyncExc(ctypes.c_ulong(t.ident), ctypes.py_object(SystemExit))
+        n += 1
+    return n
 
 
 def forget_types(classes):
